@@ -11,6 +11,7 @@ import (
 	"strconv"
 	"strings"
 	"time"
+	"unsafe"
 )
 
 // Options controls Dump.
@@ -215,6 +216,18 @@ func deepCopy(v reflect.Value, seen map[uintptr]reflect.Value) reflect.Value {
 		n.Set(v) // copies unexported fields shallowly
 		for i := 0; i < t.NumField(); i++ {
 			if t.Field(i).PkgPath != "" {
+				// unexported field (a cache, a memo): deep-copied as well, through an
+				// unsafe alias of the copy's own field, so that two copies never share a
+				// map or slice. Synchronisation primitives keep their shallow copy.
+				ft := t.Field(i).Type
+				if pp := ft.PkgPath(); pp == "sync" || pp == "sync/atomic" {
+					continue
+				}
+				switch ft.Kind() {
+				case reflect.Map, reflect.Slice, reflect.Ptr, reflect.Struct, reflect.Interface, reflect.Array:
+					fv := reflect.NewAt(ft, unsafe.Pointer(n.Field(i).UnsafeAddr())).Elem()
+					fv.Set(deepCopy(fv, seen))
+				}
 				continue
 			}
 			n.Field(i).Set(deepCopy(v.Field(i), seen))
